@@ -9169,6 +9169,7 @@ class SVG(Group):
         clip = 0
         root = context
         styles = {}
+        style_rules = []  # (selector, declarations) of every style rule, in document order
         stack = []
 
         values = {
@@ -9222,34 +9223,21 @@ class SVG(Group):
 
                 # Split any Style block elements into parts; priority medium
                 style = ""
-                if "*" in styles:  # Select all.
-                    style += styles["*"]
-                if tag in styles:  # selector type
-                    if len(style) != 0:
-                        style += ";"
-                    style += styles[tag]
-                if SVG_ATTR_CLASS in attributes:  # Selector class .class
-                    for svg_class in attributes[SVG_ATTR_CLASS].split(" "):
-                        css_tag = ".%s" % svg_class
-                        if css_tag in styles:
-                            if len(style) != 0:
-                                style += ";"
-                            style += styles[css_tag]
-                        css_tag = "%s.%s" % (
-                            tag,
-                            svg_class,
-                        )  # Selector type/class type.class
-                        if css_tag in styles:
-                            if len(style) != 0:
-                                style += ";"
-                            style += styles[css_tag]
-                if SVG_ATTR_ID in attributes:  # Selector id #id, more specific than any class selector
-                    svg_id = attributes[SVG_ATTR_ID]
-                    css_tag = "#%s" % svg_id
-                    if css_tag in styles:
-                        if len(style) != 0:
-                            style += ";"
-                        style += styles[css_tag]
+
+                def matched(selectors):
+                    """Declarations of the rules with one of these selectors, in stylesheet order."""
+                    return [v for sel, v in style_rules if sel in selectors]
+
+                # Rules in order of specificity (*, type, .class, type.class, #id); rules of equal
+                # specificity apply in the order they have in the stylesheet, later ones win.
+                parts = matched(("*",)) + matched((tag,))
+                if SVG_ATTR_CLASS in attributes:
+                    classes = attributes[SVG_ATTR_CLASS].split()
+                    parts += matched([".%s" % c for c in classes])
+                    parts += matched(["%s.%s" % (tag, c) for c in classes])
+                if SVG_ATTR_ID in attributes:
+                    parts += matched(("#%s" % attributes[SVG_ATTR_ID],))
+                style = ";".join(parts)
                 # Split style element into parts; priority highest
                 if SVG_ATTR_STYLE in attributes:
                     if len(style) != 0:
@@ -9563,6 +9551,7 @@ class SVG(Group):
                         value = value.strip()
                         for selector in key.split(","):  # Can comma select subitems.
                             sel = selector.strip()
+                            style_rules.append((sel, value))
                             if sel not in styles:
                                 styles[sel] = value
                             else:
